@@ -26,7 +26,7 @@ STMT_PATTERNS = [
 GROUP = {
     'name': 'Cmeta',
     'imports': ['Cellml.Generated.Code.CmetaQ'],
-    'header': 'open Model',
+    'header': 'open Cellml.Tie.PCmeta\nopen Model',
     'patterns': PATTERNS,
     'stmt_patterns': STMT_PATTERNS,
     'functions': [
